@@ -33,9 +33,11 @@ namespace bloc
 
 Value& MemberCONCATExpression::value(Context& ctx) const
 {
-  /* the null constant is immutable: the result is built in a temporary */
-  Value& val = (_exp->isConst() && _exp->type(ctx) == Type::NO_TYPE
-          ? ctx.allocate(Value(Value::type_no_type)) : _exp->value(ctx));
+  /* in place only on a variable or on an element or item of one: anything
+   * else that hands back a stored value (a constant, an argument returned as
+   * is by a function) is worked on through a copy */
+  Value& rcv = _exp->value(ctx);
+  Value& val = (_exp->symbolId() == nid && rcv.lvalue() ? ctx.allocate(rcv.clone()) : rcv);
   Value& a0 = _args[0]->value(ctx);
 
   /* collection */
